@@ -1,7 +1,7 @@
 #!/bin/bash
 # seedbatch.sh <round-prefix e.g. s3> <suffix e.g. r3> <ids...>   — runs seedcheck for each id with its related checks
 pre="$1"; suf="$2"; shift 2
-declare -A rel=( [C01]="C01 C02" [C02]="C02" [C03]="C03 C04" [C04]="C04 C02" [C05]="C05 C13 C15" [C06]="C06" [C07]="C07" [C08]="C08" [C09]="C09" [C10]="C10" [C11]="C11" [C12]="C12" [C13]="C13" [C14]="C14 C02" [C15]="C15 C16" [C16]="C16" [C17]="C17" [C18]="C18" [C19]="C19" [C20]="C20" )
+declare -A rel=( [C01]="C01 C02" [C02]="C02" [C03]="C03 C05 C04" [C04]="C04 C02" [C05]="C05 C03 C13" [C06]="C06" [C07]="C07" [C08]="C08 C04" [C09]="C09" [C10]="C10 C11" [C11]="C11 C10" [C12]="C12" [C13]="C13" [C14]="C14 C02" [C15]="C15 C16" [C16]="C16" [C17]="C17" [C18]="C18" [C19]="C19" [C20]="C20" )
 for id in "$@"; do
   echo "##### $id$suf"
   SEEDW=/tmp/$pre-$id /verif/tools/seedcheck.sh "$id$suf" "$id" ${rel[$id]} 2>&1 | grep "==\|!!" | grep -v "demo file" | cut -c1-300
